@@ -70,7 +70,7 @@ def main():
             "guard": "NUSPACESIM_VERIF_DTYPE",
             "enable": "environment variable NUSPACESIM_VERIF_DTYPE=float64 set by the C06 harness for its double-precision runs; unset = production behaviour",
             "baseline_off_cmd": "cd /repo && env -u NUSPACESIM_VERIF_DTYPE /venv/bin/python -m pytest -ra -q -p no:cacheprovider --timeout=900 --continue-on-collection-errors",
-            "source_commits": [],
+            "source_commits": ["0279138"],
             "add_only": True,
         },
         "engines": [{
